@@ -355,7 +355,14 @@ def run_check(prop, tier="quick", seed=0, replay=None):
         rp = json.load(open(replay if os.path.isabs(replay) else os.path.join(ROOT, replay)))
         cases = [rp["case"]] if rp.get("case") is not None else []
     else:
-        cases = prop.generate(chk)
+        try:
+            cases = prop.generate(chk)
+        except Exception:
+            # fail closed: a generator that cannot even build its cases against this tree (e.g. a
+            # reflected name is gone) means the correspondence is broken, not that the check crashed
+            cases = []
+            chk.notes.append("case generation failed: " + traceback.format_exc()[-2500:])
+            proofs_ok = False
     err = None
     if driver_ok and cases:
         try:
